@@ -17,6 +17,18 @@ VERIF = os.path.dirname(os.path.dirname(os.path.abspath(__file__)))
 REPO = os.environ.get("VERIF_REPO", "/repo")
 BUILD = os.path.join(VERIF, "build")
 SPEC = os.path.join(VERIF, "spec")
+# scratch files of one run (configurations, traces, observations): a directory of its own per process, so that
+# checks which share code (C01 / C02 / C14, C03 / C08 / C11 / C13, ..) can run at the same time
+TMP = os.path.join(BUILD, "tmp-%d" % os.getpid())
+
+
+def _tmp_setup():
+    import atexit
+    os.makedirs(TMP, exist_ok=True)
+    atexit.register(lambda: shutil.rmtree(TMP, ignore_errors=True))
+
+
+_tmp_setup()
 EVID = os.path.join(VERIF, "evidence")
 REPLAYS = os.path.join(VERIF, "replays")
 HARNESS = os.path.join(VERIF, "harness")
